@@ -331,8 +331,10 @@ theorem parse_wf {b : Bytes} (h : WF b) :
   have e2 : (factsOf b).ddSize = certSize b := rfl
   have e3 : (factsOf b).lfanew + 24 + 64 = (layout b).ck := rfl
   have e4 : (layout b).soh + ((layout b).hashed.map (·.2)).sum = (layout b).sum := rfl
-  rw [e1, e2, e3, e4]
-  rw [if_neg (by omega), if_neg (by omega), if_neg (by omega)]
+  have e8 : (factsOf b).ddVA = certAddr b := rfl
+  rw [e1, e2, e3, e4, e8]
+  have hal := h.aligned
+  rw [if_neg (by omega), if_neg (by omega), if_neg (by omega), if_neg (by omega)]
   have e5 : (layout b).sum + (b.length - (layout b).sum) = b.length := by omega
   have e6 : (layout b).sum + (b.length - (layout b).sum - certSize b) = b.length - certSize b := by omega
   have e7 : b.length - (layout b).sum - certSize b = b.length - certSize b - (layout b).sum := by omega
